@@ -113,12 +113,16 @@ def _mods():
     _M["selprot"] = g(sel + "SelectionProtocol")
     _M["probtrans"] = g(sel + "prob.trans")
     fam = {"ebv": "EstimatedBreedingValue", "gebv": "GenomicEstimatedBreedingValue", "random": "Random",
-           "ocs": "OptimalContribution", "ohv": "OptimalHaploidValue", "uc": "UsefulnessCriterion"}
+           "ocs": "OptimalContribution", "ohv": "OptimalHaploidValue", "uc": "UsefulnessCriterion",
+           "meh": "MeanExpectedHeterozygosity", "mgr": "MeanGenomicRelationship",
+           "gwgebv": "GeneralizedWeightedGenomicEstimatedBreedingValue", "wgs": "WeightedGenomic",
+           "fam": "FamilyEstimatedBreedingValue", "l2": "L2NormGenomic", "embv": "ExpectedMaximumBreedingValue"}
     _M["fam"] = {}
     for f, stem in fam.items():
         mod = g(sel + stem + "Selection")
         for e in ("Subset", "Integer", "Binary", "Real"):
             _M["fam"][(f, e.lower())] = getattr(mod, stem + e + "Selection")
+    _M["dhcross"] = g("pybrops.breed.prot.mate.TwoWayDHCross").TwoWayDHCross
     _M["vmatfcty"] = g("pybrops.model.vmat.fcty.DenseTwoWayDHAdditiveGeneticVarianceMatrixFactory").DenseTwoWayDHAdditiveGeneticVarianceMatrixFactory
     _M["haldane"] = g("pybrops.popgen.gmap.HaldaneMapFunction").HaldaneMapFunction
     _M["cmatfcty"] = g("pybrops.popgen.cmat.fcty.DenseMolecularCoancestryMatrixFactory").DenseMolecularCoancestryMatrixFactory
@@ -184,8 +188,8 @@ def _parse_log(enc, log, ncross, nparent):
             i += 1
             if log[i]["m"] != "shuffle" or log[i]["before"] is None:
                 return None
-            before, perm = log[i]["before"], log[i]["perm"]
-            out["sus"] = [before[p] for p in perm]
+            out["offset"] = canon.enc(float(log[i - 1]["out"]))     # rng.uniform(0, ptr_dist), exact
+            out["perm"] = log[i]["perm"]                            # rng.shuffle(sel)
             i += 1
         else:
             if log[i]["m"] != "choice" or log[i]["replace"]:
@@ -240,26 +244,30 @@ class C07(Prop):
     N_QUICK = 1500
     N_THOROUGH = 40000
     CORRESPONDENCE = "functional"
-    RULE = ("cfg (62%): the 8 configuration classes constructed directly, 2-7 candidates, 1-4 crosses x 1-3 parents, "
-            "decisions that do / do not divide the number of slots, unsorted duplicate-free subsets, zero and tied "
-            "contributions, dyadic real weights, every generator draw recorded (+ scripted SUS offsets 0, 1/1024 .. 3/4 "
-            "of the spacing and spacing-1ulp); select (35%): EBV/GEBV/Random/OCS/OHV/UC protocols in the four encodings "
-            "(OHV/UC: the four mate encodings) with the exact sorting optimiser on the population and on a permuted, "
-            "renamed copy, or a stub optimiser returning scripted single-/multi-objective solution sets (default and "
-            "custom ndset_trans, both signs of ndset_wt, tied / duplicated / constant objectives), scalar and per-cross "
-            "nmating/nprogeny; xmapix (3%).  Non-trivial = cfg with >= 2 crosses or >= 2 parents and >= 2 distinct "
-            "entries; select/sorting with a candidate left out; select/stub multi-objective with >= 2 front points or "
-            "single-objective; xmapix with >= 2 rows")
-    TRUSTED = ["stochastic_universal_sampling is not modelled here (C17): its result is an oracle input of the real-valued "
-               "configurations; the Spec is evaluated on what it leads to",
+    RULE = ("cfg (62%): the 8 configuration classes constructed directly, 2-7 candidates, 1-4 crosses x 1-4 parents "
+            "(22% with 3-4 parents per cross and so few members that [a,b,a] patterns are unavoidable), decisions that "
+            "do / do not divide the number of slots, unsorted duplicate-free subsets, zero and tied contributions, dyadic "
+            "real weights, every generator draw recorded (+ scripted SUS offsets 0, 1/1024 .. 3/4 of the spacing and "
+            "spacing-1ulp); select (35%): EBV/GEBV/Random/OCS(+inequality constraint)/OHV/UC/MEH/MGR/GWGEBV/WGS/"
+            "FamilyEBV/L2/EMBV protocols in the four encodings (OHV/UC/EMBV: the four mate encodings), unsorted taxa "
+            "labels on pgmat and bvmat, with the exact sorting optimiser on the population and on a permuted, renamed "
+            "copy, or a stub optimiser returning scripted single-/multi-objective solution sets (default and custom "
+            "ndset_trans, both signs of ndset_wt, negative / non-unit per-objective obj_wt, tied / duplicated / constant "
+            "objectives), scalar and per-cross nmating/nprogeny; xmapix (3%).  Non-trivial = cfg with >= 2 crosses or "
+            ">= 2 parents and >= 2 distinct entries; select/sorting with a candidate left out; select/stub "
+            "multi-objective with >= 2 front points or single-objective; xmapix with >= 2 rows")
+    TRUSTED = ["stochastic_universal_sampling is inside the model (C17's Sampling.susDraws, exact rational arithmetic); "
+               "binary64 is abstracted as exact arithmetic: a model/implementation difference is waived only when the "
+               "spacing is not dyadic AND a pointer lies within 2^-40 of a cumulative-weight boundary (0 of ~1300 real "
+               "cases per run so far)",
                "problem objects (objective evaluation) are entered through their evalfn (C05 covers them); for EBV/GEBV "
                "subset selection the criterion is additionally recomputed from the raw inputs",
                "numpy RandomState.choice(replace=False)/shuffle deliver sub-multisets / permutations (each recorded draw is "
-               "validated by the driver); RecRNG.shuffle applies x[permutation(n)] instead of numpy's in-place algorithm",
+               "validated by the driver); RecRNG.shuffle applies x[permutation(n)] instead of numpy's in-place algorithm; "
+               "numpy's argsort order of tied weights is taken from numpy (oracle sigma)",
                "optimisers other than SortingSubsetOptimizationAlgorithm are replaced by a stub returning a scripted "
                "solution set (C06 covers them)"]
-    ASSUMPTIONS = ["'within one of the proportional share' is read as |count - share| <= 1 (the weakest reading; SUS with "
-                   "offset 0 stays inside it)",
+    ASSUMPTIONS = ["'within one of the proportional share' is read as |count - share| <= 1 (the weakest reading)",
                    "the exchange clause applies to individual-based configurations; in mate-selection configurations an "
                    "exchange of entries would create crosses outside the solution, so membership/multiplicity apply there",
                    "subset decisions are duplicate-free; contribution vectors have a positive sum; ncross, nparent >= 1",
@@ -292,6 +300,14 @@ class C07(Prop):
                   "geno": [[[0, 1, 0, 1], [1, 1, 0, 0], [0, 0, 1, 1]], [[1, 1, 0, 1], [0, 1, 0, 0], [0, 1, 1, 1]]],
                   "u_a": [[-1], [1], [3], [-4]], "bv": [29, 19, 18], "unscale": False, "obj_wt": 1, "unique": True,
                   "nobj": 1, "soln_decn": [[1, 1, 0]], "soln_obj": [[4]], "ndset_wt": 1, "ndset_trans": "default"})
+        # D57 (open) and D55/D56 (fixed by 95a1a100 / ff495eaf, kept as regression cases): problem() could not be built
+        base = {"kind": "select", "algo": "stub", "ntaxa": 3, "ncross": 2, "nparent": 2, "seed": 13, "nmating": 1,
+                "nprogeny": 1, "names": ["c", "a", "b"], "geno": [[[0, 1, 0, 1], [1, 1, 0, 0], [0, 0, 1, 1]], [[1, 1, 0, 1], [0, 1, 0, 0], [0, 1, 1, 1]]],
+                "u_a": [[-1], [1], [3], [-4]], "bv": [29, 19, 18], "unscale": False, "obj_wt": 1, "nobj": 1,
+                "soln_obj": [[4]], "ndset_wt": 1, "ndset_trans": "default"}
+        c.append(dict(base, family="embv", enc="mate_integer", unique=True, soln_decn=[[1, 1, 0]]))
+        c.append(dict(base, family="fam", enc="integer", taxa_grp=[1, 1, 2], soln_decn=[[1, 1, 0]]))
+        c.append(dict(base, family="l2", enc="subset", soln_decn=[[2, 0]]))
         # boundaries
         c.append({"kind": "cfg", "enc": "subset", "ntaxa": 4, "ncross": 2, "nparent": 2, "decn": [3], "seed": 0})
         c.append({"kind": "cfg", "enc": "subset", "ntaxa": 5, "ncross": 1, "nparent": 1, "decn": [4, 0, 2], "seed": 1})
@@ -316,6 +332,11 @@ class C07(Prop):
         ntaxa = rng.randint(2, 7)
         nparent = rng.choice([1, 2, 2, 2, 3])
         ncross = rng.randint(1, 4) if nparent < 3 else rng.randint(1, 3)
+        multi = rng.random() < 0.22 and not enc.startswith("mate_")
+        if multi:       # crosses of 3-4 parents whose parents must repeat: [a,b,a] patterns are unavoidable
+            nparent = rng.choice([3, 3, 4])
+            ncross = rng.randint(2, 4 if nparent == 3 else 3)
+            ntaxa = rng.randint(2, 6)
         case = {"kind": "cfg", "enc": enc, "ntaxa": ntaxa, "ncross": ncross, "nparent": nparent,
                 "seed": rng.randrange(2 ** 31)}
         mate = enc.startswith("mate_")
@@ -331,6 +352,8 @@ class C07(Prop):
         b = _base_enc(enc)
         if b == "subset":
             k = rng.choice([1, 2, 3, nslot, nslot, max(1, nslot - 1), nslot + 1, nopt])
+            if multi:
+                k = rng.choice([2, 2, 3, max(2, nslot // 2)])
             k = max(1, min(k, nopt))
             case["decn"] = rng.sample(range(nopt), k)
         elif b == "binary":
@@ -365,17 +388,18 @@ class C07(Prop):
         return case
 
     def _gen_select(self, rng):
-        fam = rng.choice(["ebv", "ebv", "gebv", "gebv", "random", "ocs", "ohv", "uc"])
+        fam = rng.choice(["ebv", "ebv", "ebv", "gebv", "gebv", "random", "ocs", "ocs", "ohv", "uc",
+                          "meh", "mgr", "gwgebv", "wgs", "fam", "l2", "embv"])
         ntaxa = rng.randint(3, 7)
         nvrnt = rng.choice([4, 6])
-        nparent = rng.choice([1, 2, 2, 3]) if fam not in ("ohv", "uc") else 2
+        nparent = rng.choice([1, 2, 2, 3]) if fam not in ("ohv", "uc", "embv") else 2
         ncross = rng.randint(1, 3)
-        if fam in ("ohv", "uc"):
+        if fam in ("ohv", "uc", "embv"):
             enc = rng.choice(["mate_subset", "mate_subset", "mate_integer", "mate_binary", "mate_real"])
         else:
             enc = rng.choice(["subset", "subset", "subset", "integer", "binary", "real"])
         b = _base_enc(enc)
-        algo = "sorting" if (b == "subset" and fam != "ocs" and rng.random() < 0.6) else "stub"
+        algo = "sorting" if (b == "subset" and fam in ("ebv", "gebv", "random", "ohv", "uc") and rng.random() < 0.6) else "stub"
         case = {"kind": "select", "family": fam, "enc": enc, "algo": algo, "ntaxa": ntaxa, "ncross": ncross,
                 "nparent": nparent, "seed": rng.randrange(2 ** 31),
                 "nmating": rng.choice([1, 2, [rng.randint(1, 3) for _ in range(ncross)]]),
@@ -391,8 +415,12 @@ class C07(Prop):
         case["obj_wt"] = rng.choice([1, 1, 1, -1])
         if fam == "ohv":
             case["unique"] = rng.random() < 0.6
-        if fam == "uc":
+        if fam in ("uc", "embv"):
             case["unique"] = True
+        if fam == "ocs" and rng.random() < 0.5:
+            case["constrained"] = True          # inequality constraint on the kinship norm
+        if fam == "fam":
+            case["taxa_grp"] = [rng.randint(1, 3) for _ in range(ntaxa)]
         if algo == "sorting":
             if enc == "subset" and fam != "random" and ncross * nparent > ntaxa:
                 case["ncross"] = ncross = 1
@@ -416,7 +444,7 @@ class C07(Prop):
                 ksub = ncross
             else:
                 nopt = ntaxa
-                ksub = ncross * nparent if fam != "random" else nparent
+                ksub = ncross * nparent if fam not in ("random", "fam", "l2") else nparent
             solns = []
             tries = 0
             while len(solns) < nsoln and tries < 50:
@@ -454,6 +482,8 @@ class C07(Prop):
             elif style < 0.4 and len(objs) > 1:  # duplicated point
                 objs[-1] = list(objs[0])
             case["soln_obj"] = objs
+            if nobj > 1:     # objectives to be increased / decreased, non-unit weights
+                case["obj_wt_vec"] = [rng.choice([1, -1, -1, 2, "1/2", -3]) for _ in range(nobj)]
             case["ndset_wt"] = rng.choice([1, 1, -1, 2, "-1/2"])
             case["ndset_trans"] = rng.choice(["default", "default", "sum", "first", "negmax"])
             if case["ndset_trans"] == "default" and rng.random() < 0.5:
@@ -548,12 +578,18 @@ class C07(Prop):
         geno = [[case["geno"][ph][i] for i in idx] for ph in range(2)]
         nm = [case["names"][i] for i in idx] if names is None else list(names)
         pg = _pgmat(n, geno, nm)
+        grp = None
+        if case.get("taxa_grp"):
+            grp = numpy.array([case["taxa_grp"][i] for i in idx])
+            pg.taxa_grp = grp
+        if case["family"] == "embv":
+            pg.vrnt_xoprob = numpy.array([0.5 if j in (0, pg.nvrnt // 2) else 0.125 for j in range(pg.nvrnt)])
         nobj = case.get("nobj", 1)
-        ntrait = nobj if case["family"] in ("ebv", "gebv", "random", "ohv", "uc") else 1
+        ntrait = nobj if case["family"] in ("ebv", "gebv", "random", "ohv", "uc", "gwgebv", "wgs", "fam", "embv") else 1
         bv = numpy.array([[float(case["bv"][i]) + 3.0 * t * ((i * 7) % 5) for t in range(ntrait)] for i in idx])
         loc = numpy.array([2.0] * ntrait)
         scl = numpy.array([4.0] * ntrait)
-        bvmat = M["bvmat"]((bv - loc) / scl, location=loc, scale=scl, taxa=numpy.array(nm, dtype=object),
+        bvmat = M["bvmat"]((bv - loc) / scl, location=loc, scale=scl, taxa=numpy.array(nm, dtype=object), taxa_grp=grp,
                            trait=numpy.array(["y%d" % t for t in range(ntrait)], dtype=object))
         u_a = numpy.array([[float(r[0]) * (1 + t) + t * (j % 3) for t in range(ntrait)] for j, r in enumerate(case["u_a"])])
         gp = M["gpmod"](beta=numpy.array([[1.0] * ntrait]), u_misc=None, u_a=u_a,
@@ -568,7 +604,8 @@ class C07(Prop):
         kw = dict(ncross=case["ncross"], nparent=case["nparent"],
                   nmating=case["nmating"] if not isinstance(case["nmating"], list) else numpy.array(case["nmating"]),
                   nprogeny=case["nprogeny"] if not isinstance(case["nprogeny"], list) else numpy.array(case["nprogeny"]),
-                  nobj=nobj, obj_wt=float(case.get("obj_wt", 1)) if nobj == 1 else None,
+                  nobj=nobj, obj_wt=float(case.get("obj_wt", 1)) if nobj == 1 else
+                  (numpy.array([float(Fraction(v)) for v in case["obj_wt_vec"]]) if case.get("obj_wt_vec") else None),
                   rng=rng, soalgo=soalgo, moalgo=moalgo, **ndset)
         if fam in ("ebv", "gebv"):
             kw.update(ntrait=ntrait, unscale=bool(case["unscale"]))
@@ -578,10 +615,24 @@ class C07(Prop):
             kw.update(ntrait=1, unscale=bool(case["unscale"]), cmatfcty=M["cmatfcty"]())
             if nobj == 1:
                 kw["obj_trans"] = lambda decnvec, latentvec, **k: latentvec[:1] + latentvec[1:2]
+            if case.get("constrained"):
+                kw.update(nineqcv=1, ineqcv_wt=1.0,
+                          ineqcv_trans=lambda decnvec, latentvec, **k: numpy.maximum(latentvec[:1] - 0.75, 0.0))
         elif fam == "ohv":
             kw.update(ntrait=ntrait, nhaploblk=2, unique_parents=bool(case["unique"]))
         elif fam == "uc":
             kw.update(ntrait=ntrait, nself=0, upper_percentile=0.1, vmatfcty=M["vmatfcty"](), gmapfn=M["haldane"](),
+                      unique_parents=True)
+        elif fam in ("meh",):
+            pass
+        elif fam in ("mgr", "l2"):
+            kw.update(cmatfcty=M["cmatfcty"]())
+        elif fam == "gwgebv":
+            kw.update(ntrait=ntrait, alpha=0.5)
+        elif fam in ("wgs", "fam"):
+            kw.update(ntrait=ntrait)
+        elif fam == "embv":
+            kw.update(ntrait=ntrait, nrep=2, mateprot=M["dhcross"](rng=numpy.random.RandomState(case["seed"] % 1000)),
                       unique_parents=True)
         return cls(**kw)
 
@@ -663,8 +714,11 @@ class C07(Prop):
              "design_ok": bool(cfg.ncross == case["ncross"] and cfg.nparent == case["nparent"] and _same_pop(cfg.pgmat, pg)),
              "has_soln": ("sosoln" in misc) or ("mosoln" in misc),
              "own_generator": bool(cfg.rng is rng), "stray_draws": len(stray.log)}
-        if case["family"] == "uc" and enc == "mate_integer" and "prob" in store:
+        if case["family"] in ("uc", "embv") and enc == "mate_integer" and "prob" in store:
             r["uc_upper"] = [int(v) for v in store["prob"].decn_space_upper]
+            r["uc_lower"] = [int(v) for v in store["prob"].decn_space_lower]
+            r["uc_int"] = bool(store["prob"].decn_space_upper.dtype.kind in "iu" and
+                               store["prob"].decn_space_lower.dtype.kind in "iu")
         if enc.startswith("mate_"):
             r["xmap"] = [[int(v) for v in row] for row in cfg.xconfig_xmap]
         if "single_obj" in store:
@@ -704,6 +758,10 @@ class C07(Prop):
             r = {"op": "c07.sample", **base, **orc}
             if b != "real":
                 r["decn"] = [int(v) for v in decn]
+            else:
+                # the sampler is inside the model: exact weights and numpy's own (unstable) descending sort order
+                r["w"] = _weights(enc, decn)
+                r["sigma"] = [int(v) for v in _decn_array(enc, decn).argsort()[::-1]]
             reqs.append(r)
         s = {"op": "c07.spec", **base, "xconfig": xconfig}
         if b == "subset":
@@ -743,10 +801,12 @@ class C07(Prop):
                     reqs.append({"op": "c07.sorting", "obj": o["single_obj"], "k": len(o["decn"])})
                     reqs.append({"op": "c07.spec_topk", "obj": o["single_obj"], "k": len(o["decn"]),
                                  "decn": o["decn"]})
-            if case["family"] == "uc" and case["enc"] == "mate_integer":
+            if case["family"] in ("uc", "embv") and case["enc"] == "mate_integer":
                 nm = case["nmating"] if isinstance(case["nmating"], list) else [case["nmating"]] * case["ncross"]
-                reqs.append({"op": "c07.uc_bounds", "ncross": case["ncross"], "nparent": case["nparent"],
+                reqs.append({"op": "c07.uc_bounds" if case["family"] == "uc" else "c07.embv_bounds", "ncross": case["ncross"], "nparent": case["nparent"],
                              "nmating": nm, "nxmap": len(obs["a"]["xmap"])})
+            if case["family"] == "fam" and _base_enc(case["enc"]) != "subset":
+                reqs.append({"op": "c07.family_bounds", "nparent": case["nparent"], "ntaxa": case["ntaxa"]})
             if case["algo"] == "stub" and case.get("nobj", 1) > 1:
                 o = obs["a"]
                 dec = [[int(Fraction(v) * 4) if _base_enc(case["enc"]) == "real" else int(v) for v in d]
@@ -767,10 +827,38 @@ class C07(Prop):
             raise RuntimeError("driver error: " + a["err"])
         return a["ok"]
 
-    def _judge_sample_spec(self, enc, ncross, nparent, log, xconfig, answers):
+    @staticmethod
+    def _sus_near_tie(decn, k, offset):
+        """is some pointer within binary64 rounding distance of a cumulative-weight boundary (or the offset within
+        rounding distance of 0 / of the spacing)?  Then the exact-arithmetic model and the binary64 computation
+        may legitimately resolve the comparison differently; only exact (dyadic-spacing) cases are compared then."""
+        p = sorted((Fraction(v) for v in decn), reverse=True)
+        tot = sum(p)
+        d = tot / k
+        o = Fraction(offset)
+        eps = tot / (1 << 40)
+        if o <= eps or d - o <= eps or abs(2 * o - d) <= eps:
+            return True
+        cs, acc = [], Fraction(0)
+        for v in p:
+            acc += v
+            cs.append(acc)
+        return any(abs(o + j * d - c) <= eps for j in range(k) for c in cs)
+
+    def _judge_sample_spec(self, enc, ncross, nparent, log, xconfig, answers, decn=None):
         """-> (corr, spec, detail, share_only) for one configuration"""
         orc = _parse_log(enc, log, ncross, nparent)
         i = 0
+        if (orc is not None and _base_enc(enc) == "real" and decn is not None and "ok" in answers[0]
+                and answers[0]["ok"].get("rows") != xconfig):
+            k = ncross if enc.startswith("mate_") else ncross * nparent
+            d = sum(Fraction(v) for v in canon.dec(decn)) / k
+            dyadic = d.denominator & (d.denominator - 1) == 0
+            if not dyadic and self._sus_near_tie(canon.dec(decn), k, canon.dec(orc["offset"])):
+                s = self._ok(answers[1])
+                share_only = (not s["ok"]) and s.get("others") is True and s.get("share") is False
+                return True, bool(s["ok"]), (f"model={answers[0]['ok']} impl={xconfig} [pointer within binary64 rounding "
+                                             f"of a boundary, spacing not dyadic: comparison waived] spec[{s['detail']}]"), share_only
         if orc is not None and str(answers[0].get("err", "")).startswith("oracle:"):
             # the recorded draws are not what the modelled code would have asked its generator for
             i = 1
@@ -807,7 +895,7 @@ class C07(Prop):
                 return {"corr": corr, "spec": True, "nontrivial": False,
                         "detail": f"rejected input: model={m} impl={obs['error']}"}
             corr, spec, detail, share_only = self._judge_sample_spec(
-                case["enc"], case["ncross"], case["nparent"], obs["log"], obs["xconfig"], answers)
+                case["enc"], case["ncross"], case["nparent"], obs["log"], obs["xconfig"], answers, case["decn"])
             spec = spec and obs["decn_untouched"] and obs["design_ok"]
             flat = [v for r in obs["xconfig"] for v in r]
             nontriv = (case["ncross"] >= 2 or case["nparent"] >= 2) and len(set(flat)) >= 2
@@ -829,7 +917,7 @@ class C07(Prop):
             o = obs[key]
             n = o["_nreq"]
             c, s, d, so = self._judge_sample_spec(enc, case["ncross"], case["nparent"], o["log"], o["xconfig"],
-                                                   answers[pos:pos + n])
+                                                   answers[pos:pos + n], o["decn"])
             pos += n
             share_only = share_only or so
             # design parameters carried over
@@ -854,12 +942,18 @@ class C07(Prop):
                 per[key] = {"vals": sorted(so_vals[i] for i in o["decn"]), "distinct": distinct}
             corr = corr and c
             spec = spec and s
-        if case["family"] == "uc" and enc == "mate_integer":
+        if case["family"] in ("uc", "embv") and enc == "mate_integer":
             ub = self._ok(answers[pos])
             pos += 1
-            ubok = "error" not in ub and ub.get("upper") == obs["a"].get("uc_upper")
+            ubok = ("error" not in ub and ub.get("upper") == obs["a"].get("uc_upper")
+                    and ub.get("lower") == obs["a"].get("uc_lower") and obs["a"].get("uc_int") is True)
             corr = corr and ubok
             details.append(f"uc integer upper bound model={ub.get('upper', ub.get('error'))} impl={obs['a'].get('uc_upper')}")
+        if case["family"] == "fam" and _base_enc(enc) != "subset":
+            fb = self._ok(answers[pos])
+            pos += 1
+            corr = corr and "error" not in fb       # the implementation built its problem: so must the model
+            details.append(f"family bounds model={fb}")
         nontriv = True
         if case["algo"] == "sorting":
             a, b = obs["a"], obs["b"]
@@ -948,6 +1042,10 @@ class C07(Prop):
         enc = case.get("enc") or ""
         b = _base_enc(enc)
         nslot = case.get("ncross", 0) * (1 if enc.startswith("mate_") else case.get("nparent", 0))
+        if case.get("kind") == "select" and isinstance(obs, dict) and "__exception__" in obs:
+            fam, exc, text = case.get("family"), obs["__exception__"], obs.get("text", "")
+            if fam == "l2" and exc == "type" and "mkrwt" in text and "afreq" in text:
+                sig.update(site="L2NormGenomicSelection.problem", cond="from_gmat_called_without_mkrwt_afreq")
         if b == "integer" and isinstance(verdict, dict) and verdict.get("share_only"):
             decs = [case["decn"]] if case.get("kind") == "cfg" else case.get("soln_decn", [])
             for d in decs:
@@ -1069,6 +1167,56 @@ class C07(Prop):
                     self._xconfig_xmap = real
             return _patch(cls, "sample_xconfig", sample_xconfig)
 
+        def neighbour_outcross(xconfig, rng=None):
+            """outcross_shuffle whose objective counts equal *neighbouring* entries only (seeded change C07-a1)"""
+            if rng is None:
+                rng = sampling.global_prng
+
+            def objfn(x):
+                return int(numpy.count_nonzero(x[:, 1:] == x[:, :-1]))
+            xravel = xconfig.ravel()
+            best = objfn(xconfig)
+            exchix = numpy.array([[i, j] for i in range(len(xravel)) for j in range(i + 1, len(xravel))])
+            iterate = True
+            while iterate:
+                rng.shuffle(exchix)
+                local = True
+                for i, j in exchix:
+                    xravel[i], xravel[j] = xravel[j], xravel[i]
+                    sc = objfn(xconfig)
+                    if sc < best:
+                        best = sc
+                        local = False
+                        break
+                    xravel[i], xravel[j] = xravel[j], xravel[i]
+                iterate = not local
+
+        def front_over_objwt(mod):
+            """multi-objective branch sees soln_obj / obj_wt (seeded change C07-a2)"""
+            cls = getattr(mod, mod.__name__.split(".")[-1])
+            orig = cls.select
+
+            def select(self, pgmat, gmat, ptdf, bvmat, gpmod, t_cur, t_max, miscout=None, **kwargs):
+                if self.nobj <= 1:
+                    return orig(self, pgmat, gmat, ptdf, bvmat, gpmod, t_cur, t_max, miscout=miscout, **kwargs)
+                real_trans = self.ndset_trans
+                wt = numpy.asarray(self.obj_wt, dtype=float)
+                try:
+                    self._ndset_trans = lambda mat, **kw: real_trans(mat / wt, **kw)
+                    return orig(self, pgmat, gmat, ptdf, bvmat, gpmod, t_cur, t_max, miscout=miscout, **kwargs)
+                finally:
+                    self._ndset_trans = real_trans
+            return _patch(cls, "select", select)
+
+        EbvSubset = M["fam"][("ebv", "subset")]
+        orig_problem = EbvSubset.problem
+
+        def problem_sorted_labels(self, pgmat, gmat, ptdf, bvmat, gpmod, t_cur, t_max, **kwargs):
+            """breeding values 'aligned' by position in the sorted label array (seeded change C07-a3)"""
+            if pgmat is not None and pgmat.taxa is not None and bvmat.taxa is not None:
+                bvmat = bvmat.select_taxa(numpy.searchsorted(numpy.sort(bvmat.taxa), pgmat.taxa))
+            return orig_problem(self, pgmat, gmat, ptdf, bvmat, gpmod, t_cur, t_max, **kwargs)
+
         arr = M["array"]
         real_triudix = arr.triudix
 
@@ -1083,6 +1231,9 @@ class C07(Prop):
             ("tiled_choice_with_replacement", lambda: _many(*[_patch(m, "tiled_choice", tiled_replace) for m in tiled_mods])),
             ("skip_outcross_shuffle", lambda: _many(*[_patch(m, "outcross_shuffle", no_outcross) for m in ind_mods])),
             ("axis_shuffle_across_crosses", lambda: _many(*[_patch(m, "axis_shuffle", axis1) for m in ind_mods])),
+            ("outcross_objective_neighbours_only", lambda: _many(*[_patch(m, "outcross_shuffle", neighbour_outcross) for m in ind_mods])),
+            ("mo_front_divided_by_obj_wt", lambda: _many(*[front_over_objwt(M["protmod"][e]) for e in M["protmod"]])),
+            ("ebv_subset_values_by_sorted_labels", lambda: _patch(EbvSubset, "problem", problem_sorted_labels)),
             ("xmap_row_off_by_one", lambda: _many(*[mate_lookup_off_by_one(M["cfgmod"][e]) for e in ENC_MATE])),
             ("triudix_reversed_rows", lambda: _patch(arr, "triudix", triudix_wrong)),
         ]
